@@ -41,7 +41,10 @@ FLAGSETS = [("none", {}), ("ne", {"no_explicit_cast": True}), ("ndl", {"no_data_
 
 TARGETS = ["none", "bool", "int", "float", "decimal", "complex", "str", "bytes", "bytearray", "list", "tuple", "set", "frozenset",
            "dict", "date", "datetime", "time", "timedelta", "uuid", "enum:Color", "enum:Num", "enum:Plain", "sub:int", "sub:str",
-           "sub:float", "sub:list", "sub:dict", "tuple2", "data"]
+           "sub:float", "sub:list", "sub:dict", "tuple2", "data",
+           # unions: their staged resolution (strict, no-loss, lenient) relies on the flags only restricting
+           "union:str|int", "union:int|str", "union:int|float", "union:float|int", "union:int|list", "union:bool|int|str", "union:date|datetime|str",
+           "union:decimal|float|none"]
 SCALAR_TARGETS = {"none", "bool", "int", "float", "decimal", "complex", "str", "bytes", "bytearray", "date", "datetime", "time",
                   "timedelta", "uuid", "enum:Color", "enum:Num", "enum:Plain", "sub:int", "sub:str", "sub:float"}
 TARGET_GROUP = {"none": "null", "bool": "boolean", "int": "number", "float": "number", "decimal": "number", "complex": "number",
@@ -62,6 +65,9 @@ def target_type(name, options):
         return codec.SUBS[name[4:]]
     if name == "tuple2":
         return Rule.annotate(tuple, int, int)
+    if name.startswith("union:"):
+        from utype.parser.rule import LogicalType
+        return LogicalType.any_of(*[tspec.ORIGINS[o] for o in name[6:].split("|")])
     if name == "data":
         # the flags are class options of the data class itself: a nested data class parses with its own options
         ns = {"__annotations__": {"a": int, "b": str}, "b": "", "__module__": "vf.entries", "__qualname__": "TwoFields"}
@@ -270,6 +276,12 @@ def judge_pair(x_spec, tname, entry):
         det = {"flags": fname, "result": codec.encode(o[1])}
         if base[0] == "perr":
             fails.append((f"restriction/accepted-only-with-flags/{fname}/{group_of(x)}->{tname}", dict(det, lenient_error=str(base[1])[:160])))
+        elif base[0] == "ok" and tname.startswith("union:"):
+            # a union picks a member in stages that depend on the flags: keyed by (flag set, target, source type, member chosen
+            # with / without the flags) so that every distinct divergence is its own finding
+            if not _unstable(x, o[1]) and (type(o[1]) is not type(base[1]) or not oracle.equal(o[1], base[1])):
+                fails.append((f"restriction/union-member-depends-on-flags/{fname}/{tname}/{type(x).__name__}:{type(o[1]).__name__}-vs-{type(base[1]).__name__}",
+                              dict(det, lenient=codec.encode(base[1]))))
         elif base[0] == "ok":
             if _unstable(x, o[1]):
                 pass   # repr of an object with its address / set iteration order of NaN: not comparable across two decodes
@@ -359,7 +371,8 @@ TABLE = [
 
 
 def case_strategy():
-    tnames = st.sampled_from(TARGETS)
+    # union targets are judged on the exhaustive table only (their known divergences are listed one by one)
+    tnames = st.sampled_from([t for t in TARGETS if not t.startswith("union:")])
 
     def src_for(tn):
         base = tn.split(":")[0] if not tn.startswith("sub:") else tn[4:]
